@@ -119,6 +119,9 @@ func tables() tableFP {
 		"PopularActions":             fingerprint(actionlint.PopularActions),
 		"BuiltinUntrustedInputs":     fingerprint(actionlint.BuiltinUntrustedInputs),
 		"BrandingColors":             fingerprint(actionlint.BrandingColors),
+		"BrandingIcons":              fingerprint(actionlint.BrandingIcons),
+		"SpecialFunctionNames":       fingerprint(actionlint.SpecialFunctionNames),
+		"OutdatedPopularActionSpecs": fingerprint(actionlint.OutdatedPopularActionSpecs),
 	}
 }
 
@@ -380,7 +383,12 @@ func main() {
 	maxfiles := flag.Int("maxfiles", 4, "largest subset size")
 	out := flag.String("out", "", "output directory")
 	replay := flag.String("replay", "", "replay file")
+	extractGlobals := flag.String("extract-globals", "", "translator mode: list the package-level variables of the package in this directory")
+	gen := flag.String("gen", "GenGlobals.v", "output of -extract-globals")
 	flag.Parse()
+	if *extractGlobals != "" {
+		os.Exit(doExtractGlobals(*extractGlobals, *gen))
+	}
 	if *replay != "" {
 		b, err := os.ReadFile(*replay)
 		hx.Must(err)
